@@ -40,6 +40,8 @@ impl SampledChance {
     ///
     /// This will return the same value on successive calls until reset is called
     pub fn sample(&mut self) -> usize {
+        #[cfg(feature = "verif")]
+        crate::verif::jitter_held();
         if self.cached == 0 {
             #[cfg(feature = "verif")]
             crate::verif::site(crate::verif::CHANCE, self.verif_id, &self.verif_weights);
